@@ -27,3 +27,21 @@ fn x_parse_ref_all_concrete_flat() {
     let r = ParsedName::parse_ref(&mut p);
     assert!(r.is_ok());
 }
+
+use domain::base::iana::{Class, Rtype};
+use domain::base::message_builder::MessageBuilder;
+use domain::base::Ttl;
+use domain::rdata::A;
+// @funcs: x
+#[kani::proof]
+#[kani::unwind(10)]
+fn x_builder_min() {
+    let c: [u8; 3] = kani::any();
+    let w = [2u8, c[0], c[1], 1, c[2], 0];
+    let n = Name::from_octets(&w[..]).unwrap();
+    let (qt, qc): (u16, u16) = (kani::any(), kani::any());
+    let mut q = MessageBuilder::from_target(octseq::array::Array::<48>::new()).unwrap().question();
+    q.push((n.clone(), Rtype::from_int(qt), Class::from_int(qc))).unwrap();
+    assert!(q.as_slice().len() == 22);
+    assert!(q.counts().qdcount() == 1);
+}
